@@ -32,7 +32,8 @@ def svd_kernel(mat, assume_full_rank=False, matching_rank=True,
         kernel_dim = (kernel_dims).flatten()[0]
 
     if matching_rank:
-        return v[..., -kernel_dim:, :].swapaxes(-1, -2)
+        # not -kernel_dim: an empty kernel would select every row
+        return v[..., v.shape[-2] - kernel_dim:, :].swapaxes(-1, -2)
 
     possible_dims = np.unique(kernel_dims)
     kernel_bases = []
@@ -41,7 +42,7 @@ def svd_kernel(mat, assume_full_rank=False, matching_rank=True,
     for kernel_dim in possible_dims:
         where_dim = (kernel_dims == kernel_dim)
         kernel_bases.append(
-            v[where_dim, -kernel_dim:, :].swapaxes(-1, -2)
+            v[where_dim, v.shape[-2] - kernel_dim:, :].swapaxes(-1, -2)
         )
         kernel_dim_loc.append(where_dim)
 
